@@ -192,7 +192,7 @@ package gohlslib
 // close(): flag + guard discipline only; panic-freedom of the finalisation it performs needs the
 // muxer-level invariant (every stream well-formed, streams pairwise disjoint), which is work in progress
 //@ func muxerStream.close
-//@   props C07 C08
+//@   props C07 C08 C18
 //@   role writer
 //@   nosafety
 //@   nocallpre
@@ -208,14 +208,14 @@ package gohlslib
 //@ pred segClosed() int := calls("muxerSegmentFMP4.close") + calls("muxerSegmentMPEGTS.close") + calls("muxerGap.close")
 
 //@ func muxerSegmentFMP4.close
-//@   props C07
+//@   props C07 C18
 //@   role writer
 //@   requires s.storage != nil && ref(s.storage) != 0
 //@   ensures calls("storage.fileDisk.Remove") + calls("storage.fileRAM.Remove") == 1
 //@ end
 
 //@ func muxerSegmentMPEGTS.close
-//@   props C07
+//@   props C07 C18
 //@   role writer
 //@   requires s.storage != nil && ref(s.storage) != 0
 //@   ensures calls("storage.fileDisk.Remove") + calls("storage.fileRAM.Remove") == 1
@@ -408,7 +408,7 @@ package gohlslib
 
 // writeSample appends exactly the given sample to the track's list, or fails without any change
 //@ func muxerPart.writeSample
-//@   props C01 C18
+//@   props C01 C05 C18
 //@   requires p.segment != nil && track != nil && sample != nil && track.stream != nil
 //@   requires p.segmentMaxSize <= 4611686018427387904 && p.segment.size <= p.segmentMaxSize
 //@   modifies p.segment.size, track.fmp4StartDTS, p.isIndependent, track.fmp4Samples
@@ -488,7 +488,7 @@ package gohlslib
 //@ end
 
 //@ func muxerSegmentFMP4.finalize
-//@   props C03 C04
+//@   props C01 C03 C04
 //@   requires anylock()
 //@   role writer
 //@   requires storage.fileOpen(s.storage)
@@ -497,7 +497,7 @@ package gohlslib
 //@ end
 
 //@ func muxerSegmentMPEGTS.finalize
-//@   props C03 C04
+//@   props C01 C03 C04
 //@   role writer
 //@   requires storage.fileOpen(s.storage) && s.bw != nil
 //@   modifies s.endDTS, s.bw
@@ -632,7 +632,7 @@ package gohlslib
 //@ pred tsThrough(s *muxerStream) := s.variant == MuxerVariantMPEGTS ==> s.mpegtsSwitchableWriter.w == asM(s.nextSegment).bw
 
 //@ func muxerStream.createFirstSegment
-//@   props C01 C02 C04
+//@   props C01 C02 C04 C05
 //@   role writer
 //@   requires cfg(s) && s.nextSegment == nil
 //@   modifies s.nextSegment, s.nextPart, s.mpegtsSwitchableWriter.w
@@ -645,7 +645,7 @@ package gohlslib
 //@ pred streamsOK(m *Muxer) := muxerLinks(m) && forall(i, j, (0 <= i && i < j && j < len(m.streams)) ==> m.streams[i] != m.streams[j])
 
 //@ func Muxer.createFirstSegment
-//@   props C01 C02 C04
+//@   props C01 C02 C04 C06
 //@   role writer
 //@   requires streamsOK(m) && forall(i, (0 <= i && i < len(m.streams)) ==> (cfg(m.streams[i]) && m.streams[i].nextSegment == nil))
 //@   modifies muxerStream.nextSegment, muxerStream.nextPart, switchableWriter.w
@@ -967,7 +967,7 @@ package gohlslib
 // C01: the public Write* entry points hand the unit, unchanged, to the front end of its codec together with the
 // muxer track registered for the caller's Track
 //@ func Muxer.WriteAV1
-//@   props C01
+//@   props C01 C02 C09
 //@   nosafety
 //@   noframe
 //@   nocallpre
@@ -977,7 +977,7 @@ package gohlslib
 //@ end
 
 //@ func Muxer.WriteVP9
-//@   props C01
+//@   props C01 C02 C09
 //@   nosafety
 //@   noframe
 //@   nocallpre
@@ -987,7 +987,7 @@ package gohlslib
 //@ end
 
 //@ func Muxer.WriteH265
-//@   props C01
+//@   props C01 C02 C09
 //@   nosafety
 //@   noframe
 //@   nocallpre
@@ -997,7 +997,7 @@ package gohlslib
 //@ end
 
 //@ func Muxer.WriteH264
-//@   props C01
+//@   props C01 C02 C09
 //@   nosafety
 //@   noframe
 //@   nocallpre
@@ -1007,7 +1007,7 @@ package gohlslib
 //@ end
 
 //@ func Muxer.WriteOpus
-//@   props C01
+//@   props C01 C02 C09
 //@   nosafety
 //@   noframe
 //@   nocallpre
@@ -1017,7 +1017,7 @@ package gohlslib
 //@ end
 
 //@ func Muxer.WriteMPEG4Audio
-//@   props C01
+//@   props C01 C02 C09
 //@   nosafety
 //@   noframe
 //@   nocallpre
@@ -1028,31 +1028,31 @@ package gohlslib
 
 // C10: the callback wrappers installed by Client.OnData* forward the unit's timestamps and data unchanged (VP9: the one frame)
 //@ func Client.OnDataAV1$1
-//@   props C10
+//@   props C09 C10
 //@   requires cb != nil
 //@   ensures calls("dyncall") == 1 && callarg("dyncall", 0, 0) == pts && callarg("dyncall", 0, 1) == ref(data)
 //@ end
 
 //@ func Client.OnDataH26x$1
-//@   props C10
+//@   props C09 C10
 //@   requires cb != nil
 //@   ensures calls("dyncall") == 1 && callarg("dyncall", 0, 0) == pts && callarg("dyncall", 0, 1) == dts && callarg("dyncall", 0, 2) == ref(data)
 //@ end
 
 //@ func Client.OnDataMPEG4Audio$1
-//@   props C10
+//@   props C09 C10
 //@   requires cb != nil
 //@   ensures calls("dyncall") == 1 && callarg("dyncall", 0, 0) == pts && callarg("dyncall", 0, 1) == ref(data)
 //@ end
 
 //@ func Client.OnDataOpus$1
-//@   props C10
+//@   props C09 C10
 //@   requires cb != nil
 //@   ensures calls("dyncall") == 1 && callarg("dyncall", 0, 0) == pts && callarg("dyncall", 0, 1) == ref(data)
 //@ end
 
 //@ func Client.OnDataVP9$1
-//@   props C10 C13
+//@   props C09 C10 C13
 //@   requires cb != nil && len(data) >= 1
 //@   ensures calls("dyncall") == 1 && callarg("dyncall", 0, 0) == pts && callarg("dyncall", 0, 1) == ref(data[0])
 //@ end
@@ -1060,7 +1060,7 @@ package gohlslib
 // C09 / C10 / C11: the stream downloader hands its stream processor its own leading flag, rendition, queue and client;
 // the init segment is fetched with the EXT-X-MAP URI and byte range of the first playlist
 //@ func clientStreamDownloader.run
-//@   props C09 C10 C11
+//@   props C09 C10 C11 C13
 //@   nosafety
 //@   noframe
 //@   nocallpre
@@ -1080,7 +1080,7 @@ package gohlslib
 //@ axiom partsum_def forall_as(a, []*playlist.MediaPart, forall(n, n >= 1 ==> partsum(a, n) == partsum(a, n - 1) + a[n - 1].Duration))
 
 //@ func dateTimeOfPreloadHint
-//@   props C10
+//@   props C10 C11
 //@   requires pl != nil && forall(i, (0 <= i && i < len(pl.Segments)) ==> pl.Segments[i] != nil) && forall(i, (0 <= i && i < len(pl.Parts)) ==> pl.Parts[i] != nil)
 //@   ensures (result == nil) == (len(pl.Segments) == 0 || pl.Segments[len(pl.Segments) - 1].DateTime == nil)
 //@   ensures result != nil ==> *result == *pl.Segments[len(pl.Segments) - 1].DateTime + pl.Segments[len(pl.Segments) - 1].Duration + partsum(pl.Parts, len(pl.Parts))
@@ -1116,7 +1116,7 @@ package gohlslib
 // C10 / C11 / C13: client (sequential logic; goroutines, channels and HTTP are outside the VCs)
 
 //@ func fmp4PickLeadingTrack
-//@   props C10 C13
+//@   props C09 C10 C13
 //@   requires init != nil && len(init.Tracks) >= 1 && forall(i, (0 <= i && i < len(init.Tracks)) ==> (init.Tracks[i] != nil && init.Tracks[i].Codec != nil))
 //@   ensures exists(i, 0 <= i && i < len(init.Tracks) && init.Tracks[i].ID == result)
 //@   loop 1 invariant ri < len(init.Tracks)
@@ -1151,7 +1151,7 @@ package gohlslib
 //@ end
 
 //@ func clientTrack.handleData
-//@   props C10 C13
+//@   props C09 C10 C13
 //@   requires t.track != nil && t.onData != nil && ctx != nil && t.track.ClockRate > 0
 //@   modifies t.lastAbsoluteTime
 //@   ensures pts < 0 ==> (result == nil && calls("dyncall") == 0 && t.lastAbsoluteTime == old(t.lastAbsoluteTime))
@@ -1168,7 +1168,7 @@ package gohlslib
 //@ end
 
 //@ func clientTrackProcessorFMP4.process
-//@   props C10 C13
+//@   props C09 C10 C13
 //@   requires t.track != nil && t.track.track != nil && t.streamProcessor != nil && entry != nil && entry.partTrack != nil && ctx != nil
 //@   requires t.track.onData != nil && t.decodePayload != nil && t.track.track.ClockRate > 0
 //@   requires forall(i, (0 <= i && i < len(entry.partTrack.Samples)) ==> entry.partTrack.Samples[i] != nil)
@@ -1208,7 +1208,7 @@ package gohlslib
 
 // the next segment to fetch is decided exactly as the property says
 //@ func clientStreamDownloader.fillSegmentQueue
-//@   props C11 C13
+//@   props C09 C11 C13 C20
 //@   nocallpre
 //@   requires d.firstPlaylist != nil && pl != nil && d.segmentQueue != nil && ctx != nil
 //@   requires forall(i, (0 <= i && i < len(pl.Segments)) ==> pl.Segments[i] != nil)
@@ -1241,7 +1241,7 @@ package gohlslib
 // C11 / C20: the traditional (non Low-Latency) downloader alternates: fetch one segment, wait until at most one
 // segment is still queued, re-fetch the playlist. With the one it fetches next, at most two segments wait.
 //@ func clientStreamDownloader.runTraditional
-//@   props C11 C20
+//@   props C11 C13 C20
 //@   nosafety
 //@   noframe
 //@   nocallpre
@@ -1301,7 +1301,7 @@ package gohlslib
 // of the chosen audio group that has its own URI, and carries that rendition (its NAME / LANGUAGE / DEFAULT are what
 // the client reports for the stream's tracks)
 //@ func clientPrimaryDownloader.run
-//@   props C09 C13
+//@   props C09 C11 C13
 //@   nosafety
 //@   noframe
 //@   nocallpre
@@ -1466,7 +1466,7 @@ package gohlslib
 //@ end
 
 //@ func clientTimeConvMPEGTS.convert
-//@   props C10 C13
+//@   props C09 C10 C13
 //@   nosafety
 //@   noframe
 //@   requires unheld(&ts.mutex)
@@ -1482,14 +1482,14 @@ package gohlslib
 //@ end
 
 //@ func clientTimeConvMPEGTS.setNTP
-//@   props C10 C13
+//@   props C09 C10 C13
 //@   requires unheld(&ts.mutex)
 //@   modifies ts.ntpAvailable, ts.ntpValue, ts.ntpTimestamp
 //@   ensures ts.ntpAvailable && ts.ntpTimestamp == timestamp && ts.ntpValue == value
 //@ end
 
 //@ func clientTimeConvMPEGTS.getNTP
-//@   props C10 C13
+//@   props C09 C10 C13
 //@   requires unheld(&ts.mutex) && ctx != nil
 //@   ensures result != nil ==> old(ts.ntpAvailable)
 //@   ensures result != nil ==> *result == old(ts.ntpValue) + timestampToDuration(timestamp - old(ts.ntpTimestamp), 90000)
@@ -1529,7 +1529,7 @@ package gohlslib
 // a queued unit is delivered exactly once, unchanged; the end-of-segment marker (nil) produces exactly one
 // completion signal and no delivery
 //@ func clientTrackProcessorMPEGTS.process
-//@   props C10 C13
+//@   props C09 C10 C13
 //@   requires t.track != nil && t.streamProcessor != nil && ctx != nil
 //@   requires t.track.track != nil && t.track.onData != nil && t.track.track.ClockRate > 0
 //@   modifies t.track.lastAbsoluteTime
@@ -1556,14 +1556,14 @@ package gohlslib
 //@ end
 
 //@ func mpegtsPickLeadingTrack
-//@   props C10
+//@   props C09 C10 C13
 //@   requires forall(i, (0 <= i && i < len(mpegtsTracks)) ==> mpegtsTracks[i] != nil)
 //@   ensures leadM(mpegtsTracks, result)
 //@   loop 1 invariant -1 <= ri && ri < len(mpegtsTracks) && forall(j, (0 <= j && j <= ri) ==> !isH264M(mpegtsTracks[j]))
 //@ end
 
 //@ func clientStreamProcessorMPEGTS.initializeReader
-//@   props C10 C13
+//@   props C09 C10 C13
 //@   nosafety
 //@   noframe
 //@   nocallpre
@@ -1580,7 +1580,7 @@ package gohlslib
 // error rather than leaving the other tracks waiting for a time origin), and is then joined exactly once;
 // the end-of-stream marker never touches the reader
 //@ func clientStreamProcessorMPEGTS.processSegment
-//@   props C13
+//@   props C13 C20
 //@   nosafety
 //@   noframe
 //@   nocallpre
@@ -1597,7 +1597,7 @@ package gohlslib
 //@ pred streamProcM(p *clientStreamProcessorMPEGTS) := p.client != nil && is(p.client, *Client) && ref(p.client) != 0 && p.rp != nil
 
 //@ func clientStreamProcessorMPEGTS.initializeReader$2
-//@   props C10 C13
+//@   props C09 C10 C13
 //@   noframe
 //@   nocallpre
 //@   requires nolocks() && ctx != nil && p != nil && streamProcM(p) && p.curSegment != nil && track != nil
@@ -1728,7 +1728,7 @@ package gohlslib
 //@ pred fragsOK(parts fmp4.Parts) := forall(i, (0 <= i && i < len(parts)) ==> fragOK(parts[i]))
 
 //@ func clientStreamProcessorFMP4.processSegment
-//@   props C13
+//@   props C09 C10 C13 C20
 //@   noframe
 //@   nocallpre
 //@   requires cap(p.chPartTrackProcessed) >= 1
@@ -1769,7 +1769,7 @@ package gohlslib
 //@ end
 
 //@ func clientStreamProcessorFMP4.initializeTrackProcessors
-//@   props C13
+//@   props C10 C13
 //@   noframe
 //@   nocallpre
 //@   requires ctx != nil && partTrack != nil && streamProcOK(p)
@@ -1817,7 +1817,7 @@ package gohlslib
 //@ pred defSpec(m *Muxer, k int) := rendSpec(m, k) && ite(anyMarked(m), m.Tracks[k].IsDefault, firstRend(m, k))
 
 //@ func muxerStream.initialize
-//@   props C16
+//@   props C04 C16
 //@   role init
 //@   requires nolocks() && s.server.pathHandlers != nil && &s.server.mutex != s.mutex
 //@   requires s.server != nil && forall(i, (0 <= i && i < len(s.tracks)) ==> s.tracks[i] != nil)
@@ -1840,7 +1840,7 @@ package gohlslib
 //@ end
 
 //@ func Muxer.Start
-//@   props C16
+//@   props C01 C04 C16
 //@   role init
 //@   modifies *m, muxerTrack.stream
 //@   requires nolocks()
@@ -1904,7 +1904,7 @@ package gohlslib
 //@ end
 
 //@ func muxerStream.populateMultivariantPlaylist
-//@   props C16
+//@   props C09 C16
 //@   requires anylock()
 //@   modifies pl.Renditions, pl.Variants[0].URI, pl.Variants[0].Audio, pl.Variants[0].Codecs, pl.Variants[0].Resolution, pl.Variants[0].FrameRate
 //@   requires pl != nil && len(pl.Variants) >= 1 && pl.Variants[0] != nil
@@ -1938,7 +1938,7 @@ package gohlslib
 //@   && forall(i, (0 <= i && i < len(m.streams)) ==> (m.streams[i] != nil && distinctTracks(m.streams[i].tracks)))
 
 //@ func Muxer.generateMultivariantPlaylist
-//@   props C16
+//@   props C09 C16
 //@   requires mvInv(m)
 //@   requires held(&m.mutex) && muxerLinks(m) && len(m.streams) >= 1
 //@   requires oneLeader(m) && forall(i, (0 <= i && i < len(m.streams)) ==> m.streams[i] != nil)
@@ -2018,7 +2018,7 @@ package gohlslib
 //@ axiom paylen_def forall_as(a, [][]byte, forall(n, n >= 1 ==> paylen(a, n) == paylen(a, n - 1) + len(a[n - 1])))
 
 //@ func muxerSegmentMPEGTS.writeH264
-//@   props C01 C18
+//@   props C01 C02 C03 C18
 //@   requires track != nil && track.Track != nil && track.ClockRate > 0 && s.mpegtsWriter != nil
 //@   requires s.size <= s.segmentMaxSize && s.segmentMaxSize < 4611686018427387904
 //@   requires forall(i, (0 <= i && i < len(au)) ==> len(au[i]) < 1099511627776) && len(au) < 1048576
@@ -2037,7 +2037,7 @@ package gohlslib
 //@ end
 
 //@ func muxerSegmentMPEGTS.writeMPEG4Audio
-//@   props C01 C02 C18
+//@   props C01 C02 C03 C18
 //@   requires track != nil && track.Track != nil && track.ClockRate > 0 && s.mpegtsWriter != nil
 //@   requires s.size <= s.segmentMaxSize && s.segmentMaxSize < 4611686018427387904
 //@   requires forall(i, (0 <= i && i < len(aus)) ==> len(aus[i]) < 1099511627776) && len(aus) < 1048576
@@ -2060,7 +2060,7 @@ package gohlslib
 //@   && ps.DateTime != nil && *ps.DateTime == asM(s.segments[j]).startNTP
 
 //@ func muxerStream.generateMediaPlaylistMPEGTS
-//@   props C03 C04 C05
+//@   props C03 C04 C05 C06
 //@   requires held(s.mutex) && forall(i, (0 <= i && i < len(s.segments)) ==> (s.segments[i] != nil && isM(s.segments[i]) && ref(s.segments[i]) != 0))
 //@   loop 1 invariant ri < len(s.segments) && len(pl.Segments) == ri + 1 && forall(k, (0 <= k && k <= ri) ==> listsTS(s, pl.Segments[k], k, rawQuery))
 //@   atcall playlist.Media.Marshal pl.Version == 3 && pl.TargetDuration == s.targetDuration && pl.MediaSequence == s.segmentDeleteCount && pl.AllowCache != nil && !*pl.AllowCache
@@ -2184,14 +2184,14 @@ package gohlslib
 //@   && (p.isLeading ==> (t.Name == "" && t.Language == "" && !t.IsDefault))
 
 //@ func clientStreamDownloader.setTracks
-//@   props C09
+//@   props C09 C10
 //@   nosafety
 //@   noframe
 //@   nocallpre
 //@ end
 
 //@ func clientStreamProcessorFMP4.run
-//@   props C09 C13
+//@   props C09 C10 C13
 //@   nosafety
 //@   noframe
 //@   nocallpre
